@@ -278,7 +278,58 @@ def check_db(case):
     return OK(len(P) >= 1 and any(pin.words_of_perm(tuple(b)) for b in basis), "db")
 
 
-CHECKS = {"accept": check_accept, "finite": check_finite, "db": check_db}
+def _m_words(sp):
+    """the direction words of a strict pin word (two for a single numeral, else one)"""
+    quad = {"1": "RU", "2": "LU", "3": "LD", "4": "RD"}[sp[0]]
+    out = []
+    for first in (quad, quad[::-1]):
+        m = first + sp[1:]
+        if all((a in "UD") != (b in "UD") for a, b in zip(m, m[1:])):
+            out.append(m)
+    return out
+
+
+def check_pinword_dfa(case):
+    """The automaton of one pin word u = u1 u2 .. uk (strong numeral-led factors) accepts exactly
+    A* phi(u1) A* phi(u2) .. A* over the four direction letters - in particular every word that
+    contains phi(u) only as an occurrence overlapping a partial copy of itself.  Oracle: the
+    regular expression itself (backtracking matcher of the standard library)."""
+    import re
+
+    u, w = case["u"], case["w"]
+    factors = pin.factor(u)
+    rx = ".*" + ".*".join("(?:" + "|".join(_m_words(f)) + ")" for f in factors) + ".*"
+    want = re.fullmatch(rx, w) is not None
+    dfa = PW.make_dfa_for_pinword(u)
+    got = dfa.accepts_input(w)
+    if got != want:
+        return BAD("pinword_automaton", {"u": u, "w": w, "got": got, "want": want, "language": rx})
+    m0 = _m_words(factors[0])[0]
+    border = any(m0[:j] == m0[-j:] for j in range(1, len(m0)))
+    return OK(want and len(u) >= 3, "accepted" if want else "rejected", *(["self_overlapping_factor"] if border else []), key=f"{u}|{w}")
+
+
+def check_pinword_dfa_cover(case):
+    """Complete transition cover of the automaton of a strict pin word: for its direction word m,
+    every prefix length k and every letter c, the word m[:k] + c + (what is still missing, by
+    brute force) contains m and must be accepted; the same word with its last letter removed
+    must be accepted iff it still contains m."""
+    m = case
+    u = pin.m_to_sp(m)
+    dfa = PW.make_dfa_for_pinword(u)
+    words = _m_words(u)
+    for k in range(len(m)):
+        for c in "ULDR":
+            seen = m[:k] + c
+            t = max(j for j in range(len(m) + 1) if seen.endswith(m[:j]))
+            for w in (seen + m[t:], (seen + m[t:])[:-1], "R" + seen + m[t:] + "U"):
+                want = any(x in w for x in words)
+                if dfa.accepts_input(w) != want:
+                    return BAD("pinword_automaton_transition", {"u": u, "direction_word": m, "w": w, "want": want, "prefix": k, "letter": c})
+    return OK(len(m) >= 4, "cover", key="cover|" + m)
+
+
+CHECKS = {"accept": check_accept, "finite": check_finite, "db": check_db, "pinword_dfa": check_pinword_dfa, "pinword_dfa_cover": check_pinword_dfa_cover}
 
 
 # ------------------------------------------------------------------ generators
@@ -334,6 +385,15 @@ def non_pin_perms(n=6):
     return [p for p in ref.perms(n) if p not in tab]
 
 
+def shard_dfa_cover(acc, shard, nshards, max_len):
+    i = 0
+    for n in range(2, max_len + 1):
+        for m in pin.m_language(n):
+            if i % nshards == shard:
+                acc.record("pinword_dfa_cover", check_pinword_dfa_cover, m)
+            i += 1
+
+
 def shard_non_pin(acc, shard, nshards, per_shard, L):
     """bases mixing a permutation without pin words with ordinary ones, in both list orders:
     an element contributing nothing must not silence the others (either route)"""
@@ -378,7 +438,53 @@ def basis_cases(draw, max_len):
     return basis
 
 
+@st.composite
+def pinword_dfa_cases(draw):
+    """pin words whose factors have periodic direction tails (their direction words have nested
+    borders) and words over the four letters with planted, overlapping and partial copies"""
+    facs = []
+    for _ in range(draw(st.integers(1, 3))):
+        # the direction word of the factor is periodic with a period of 2-4 alternating letters
+        # (period 4 gives nested borders such as ULURULU -> ULU -> U); the factor is read off it
+        vert = draw(st.booleans())
+        unit = ""
+        for _ in range(draw(st.sampled_from([2, 4, 4, 4]))):
+            unit += draw(st.sampled_from("UD" if vert else "LR"))
+            vert = not vert
+        m = (unit * 6)[: draw(st.integers(2, 12))]
+        if draw(st.integers(0, 4)) == 0 and len(m) > 2:
+            k = draw(st.integers(2, len(m) - 1))
+            m = m[:k] + {"U": "D", "D": "U", "L": "R", "R": "L"}[m[k]] + m[k + 1 :]
+        facs.append(pin.m_to_sp(m))
+    u = "".join(facs)
+    pieces = []
+    for f in pin.factor(u):
+        m = draw(st.sampled_from(_m_words(f)))
+        mode = draw(st.sampled_from(["exact", "overlap", "transition", "transition", "partial", "noise"]))
+        if mode == "exact":
+            pieces.append(m)
+        elif mode == "transition":
+            # transition cover of the string-matching automaton of m: after the prefix m[:k] read
+            # any letter c, then exactly what is still missing (t = longest suffix of m[:k] + c that
+            # is a prefix of m, found by brute force) - the result contains m
+            k = draw(st.integers(0, len(m) - 1))
+            c = draw(st.sampled_from("ULDR"))
+            seen = m[:k] + c
+            t = max(j for j in range(len(m) + 1) if seen.endswith(m[:j]))
+            pieces.append(seen + m[t:])
+        elif mode == "overlap":
+            j = draw(st.integers(1, len(m)))
+            pieces.append(m[:j] + m)  # a partial copy running into a full one
+        elif mode == "partial":
+            pieces.append(m[: draw(st.integers(1, len(m)))])
+        else:
+            pieces.append("".join(draw(st.lists(st.sampled_from("ULDR"), max_size=5))))
+        pieces.append("".join(draw(st.lists(st.sampled_from("ULDR"), max_size=2))))
+    return {"u": u, "w": "".join(pieces)}
+
+
 def shard_generated(acc, shard, nshards, n_bases, max_len, L):
+    engine.hyp_run(acc, "pinword_dfa", check_pinword_dfa, pinword_dfa_cases(), 60 * n_bases, shard)
     os.chdir(engine.fresh_dir("dfa"))
     import hypothesis
     from hypothesis import given
@@ -401,6 +507,7 @@ def shard_generated(acc, shard, nshards, n_bases, max_len, L):
 
 
 def run(acc, tier):
+    engine.pmap(acc, shard_dfa_cover, extra=((9,) if tier == "quick" else (12,)))
     engine.pmap(acc, shard_non_pin, extra=((1, 7) if tier == "quick" else (4, 9)))
     if tier == "quick":
         engine.pmap(acc, shard_exhaustive, extra=(4, 9))
